@@ -266,14 +266,14 @@ func (v *PacketDslVisitorImpl) VisitFieldDefinitionWithAttribute(ctx *gen.FieldD
 	for _, fieldAttr := range ctx.AllFieldAttribute() {
 		switch {
 		case fieldAttr.CalculatedFromAttribute() != nil:
-			// a checksum is a number: the attribute cannot turn a string, object or match field into one
-			if _, ok := f.Attr.(*model.BasicFieldAttribute); !ok {
+			// a checksum is one number: the attribute cannot turn a string, object, match or repeated field into one
+			if _, ok := f.Attr.(*model.BasicFieldAttribute); !ok || f.IsRepeat {
 				v.rejectNonNumericField(f, fieldAttr)
 				continue
 			}
 			f.Attr = &model.CheckSumFieldAttribute{Type: f.GetType(), CheckSumType: fieldAttr.CalculatedFromAttribute().GetFrom().GetText()}
 		case fieldAttr.LengthOfAttribute() != nil:
-			if _, ok := f.Attr.(*model.BasicFieldAttribute); !ok {
+			if _, ok := f.Attr.(*model.BasicFieldAttribute); !ok || f.IsRepeat {
 				v.rejectNonNumericField(f, fieldAttr)
 				continue
 			}
